@@ -111,7 +111,8 @@ class World:
         self.sim, self.elem = sim, elem
         self.beam = None
         if sim == "beam":
-            simu, beam, _ = simlib.beam_simu(2, "SEG2", (0.0, 0.0, 0.0), (1.5, 2.0, 0.0), 2, elem == "timoshenko", E=210.0)
+            # one 3-D member along (2,3,6) with a rectangular section (Iy != Iz), Euler-Bernoulli or Timoshenko
+            simu, beam, _ = simlib.beam_simu(3, "SEG2", (0.0, 0.0, 0.0), (2.0, 3.0, 6.0), 2, elem == "timoshenko", E=210.0)
             self.sims = [simu]
             self.beam = beam
             self.model = simu.model
@@ -180,6 +181,14 @@ class World:
         from EasyFEA import Simulations
 
         s = self.sims[i]
+        if self.sim == "beam":
+            # a member built from scratch with the public parameters of the mutated one
+            s2, b2, _ = simlib.beam_simu(3, "SEG2", (0.0, 0.0, 0.0), (2.0, 3.0, 6.0), 2, self.elem == "timoshenko", E=210.0, yAxis=tuple(float(x) for x in self.beam.yAxis))
+            b2.E = self.beam.E
+            s2.rho = self.P[i]["rho"]
+            for bc in self.P[i]["bc"]:
+                self.apply_bc(s2, bc)
+            return s2
         cls = self.sim_class()
         s2 = cls(clone_mesh(s.mesh), self.new_model(s.mesh.dim, s.model), verbosity=False)
         if self.sim == "hyper":
@@ -198,6 +207,13 @@ def warm(w, i=0, solve=True):
     from EasyFEA.FEM import MatrixType
 
     s = w.sims[i]
+    if w.sim == "beam":
+        s.Get_K_C_M_F()
+        s.Bc_vector_Neumann()
+        if solve and w.P[i]["bc"]:
+            s.Solve()
+            s.Result("N", nodeValues=False) if "N" in s.Results_Available() else None
+        return
     if w.sim == "hyper":
         # the hyperelastic system is built at the current Newton iterate (set as Solve() does); its element mass matrix is cached on the simulation
         s._Simu__Solver_Set_Newton_Raphson_current_solution(np.zeros(s.mesh.Nn * s.Get_dof_n()))
@@ -220,7 +236,7 @@ def warm(w, i=0, solve=True):
         s.Result(name, nodeValues=False)
 
 
-RESULTS = {"elastic": ["Stress", "Wdef_e"], "thermal": ["thermal"], "hyper": []}
+RESULTS = {"elastic": ["Stress", "Wdef_e"], "thermal": ["thermal"], "hyper": [], "beam": []}
 
 
 # ------------------------------------------------------------------------------------------------ operations
@@ -236,6 +252,9 @@ def op_apply(w, name, V, tag):
         (w.beam if w.sim == "beam" else m).E = V.get(f"E{tag}", 50, 500)
     elif name == "v":
         m.v = V.get(f"nu{tag}", Fraction(1, 10), Fraction(2, 5))
+    elif name == "yAxis":
+        # re-orient the section axes of the member in place (enumerated new axis)
+        w.beam.yAxis = (1.0, 1.0, 0.0) if tag.endswith("0") else (0.0, 0.0, 1.0)
     elif name == "planeStress":
         m.planeStress = not m.planeStress
     elif name == "thickness":
@@ -308,7 +327,7 @@ def op_apply(w, name, V, tag):
 OPS = {"elastic": ["E", "v", "planeStress", "thickness", "rho", "damping", "translate", "rotate", "symmetry", "coord", "gcoord", "newmesh", "bc", "bc_add", "set_iter"],
        "thermal": ["k", "c", "thickness", "rho", "translate", "rotate", "symmetry", "coord", "gcoord", "newmesh", "bc", "set_iter"],
        "hyper": ["lmbda", "thickness", "rho", "translate", "symmetry", "coord", "gcoord", "newmesh"],
-       "beam": ["E", "rho", "translate", "bc"]}
+       "beam": ["E", "yAxis", "rho", "bc"]}
 
 
 NON_NOTIFYING = ("bc", "bc_add")
@@ -509,6 +528,13 @@ def configs(tier):
         out.append({"sim": "hyper", "elem": "TRI3", "ops": [o]})
     for a, b in ([(a, b) for a in hops for b in hops] if tier == "thorough" else [("newmesh", "coord"), ("coord", "rho"), ("rho", "coord"), ("translate", "coord"), ("coord", "newmesh"), ("thickness", "coord")]):
         out.append({"sim": "hyper", "elem": "TRI3", "ops": [a, b]})
+    # beam member: the frame of the section (yAxis) is a model parameter the element matrices depend on
+    for kind in (("eulerbernoulli", "timoshenko") if tier == "thorough" else ("eulerbernoulli",)):
+        bops = OPS["beam"]
+        for o in bops:
+            out.append({"sim": "beam", "elem": kind, "ops": [o]})
+        for a, b in [(a, b) for a in bops for b in bops]:
+            out.append({"sim": "beam", "elem": kind, "ops": [a, b]})
     extra = [("elastic", "QUAD4"), ("elastic", "TETRA4")] if tier == "thorough" else []
     for sim, elem in extra:
         for o in OPS[sim]:
